@@ -10,9 +10,10 @@ import TinsModel.Checksum.Model
   of four bytes.  An option is `PDUOption<option_identifier, IP>`: the type octet (copied(1) | class(2) | number(5)),
   the advertised length `size_` and the stored bytes (`real_size_` of them).
 
-  The model follows the code *after* the fixes of this family (KF-C02-Ip-1, KF-C03-Ip-1, KF-C03-Ip-2, KF-C02-Ip-2):
-  parser, size function and writer agree that only the type octets 0 (END) and 1 (NOOP) are single bytes, END stops the
-  option loop and the rest of the header is padding, and a header of more than 60 bytes is refused.
+  The model follows the code *after* the fixes of this family (KF-C02-Ip-1, KF-C03-Ip-1, KF-C03-Ip-2, KF-C02-Ip-2,
+  KF-C02-Ip-4): parser, size function and writer agree that only the type octets 0 (END) and 1 (NOOP) are single bytes,
+  END stops the option loop and the rest of the header is padding, an option's length octet must lie inside the header,
+  and a header of more than 60 bytes is refused.
 -/
 namespace Tins.Wire.Ip
 
@@ -77,7 +78,8 @@ def parseOpts : Nat → Cursor → Nat → Nat → Out (List IpOpt × Cursor)
       let (t, c) ← c.readU8                                  -- (option_identifier)stream.read<uint8_t>()
       let pos := pos + 1
       if !singleByte t then
-        -- Multibyte options with length as second byte
+        -- Multibyte options with length as second byte, which has to be inside the header as well
+        if pos ≥ optEnd then .throw .malformedPacket else    -- stream.pointer() >= options_end
         let (optionSize, c) ← c.readU8                       -- stream.read<uint8_t>()
         let pos := pos + 1
         if optionSize < 2 then .throw .malformedPacket else
@@ -207,7 +209,7 @@ def chunks4 : Nat → Bytes → List Bytes
   | 0, _ => []
   | n + 1, bs => if bs.isEmpty then [] else bs.take 4 :: chunks4 n (bs.drop 4)
 
-/-- `IP::generic_route_option_type::from_option` (after fix KF-C04-Ip-4: a route option without addresses is legal) -/
+/-- `IP::generic_route_option_type::from_option` (after fix KF-C04-Ip-5: a route option without addresses is legal) -/
 def decodeRoute (p : IpOpt) : Out (Nat × List Bytes) :=
   if p.data.length < 1 || (p.data.length - 1) % 4 != 0 then .throw .malformedOption
   else .ok (byteAt p.data 0, chunks4 p.data.length (p.data.drop 1))
